@@ -17,7 +17,7 @@ pub const VARIANTS: [&str; 11] = [
     "named groups (?<n>..) with \\k<n>",
     "named groups (?P<n>..) with (?P=n)",
     "relative back-references \\k<-n>",
-    "possessive as atomic group, ^ $ as \\A \\z, raw newline",
+    "possessive as atomic group, ^ $ as \\A \\z, raw newline, \\h \\H \\e",
     "scoped flag groups as inline flags in a non-capturing group",
     "\\x{H} literals + (?#) comments + \\A \\z",
     "hash-chosen mixture",
@@ -61,7 +61,7 @@ pub fn respell(n: &Node, variant: usize) -> String {
         4 => n.to_pattern_with(&PrintOpts { names: names_for(n), name_style: 0, backref_style: 1, ..Default::default() }),
         5 => n.to_pattern_with(&PrintOpts { names: names_for(n), name_style: 1, backref_style: 2, ..Default::default() }),
         6 => n.to_pattern_with(&PrintOpts { rel_backrefs: true, ..Default::default() }),
-        7 => n.to_pattern_with(&PrintOpts { poss_as_atomic: true, anchors_az: az, raw_newline: true, ..Default::default() }),
+        7 => n.to_pattern_with(&PrintOpts { poss_as_atomic: true, anchors_az: az, raw_newline: true, short_escapes: true, ..Default::default() }),
         8 => n.to_pattern_with(&PrintOpts { flags_inline: true, ..Default::default() }),
         9 => join(&n.tokens(&PrintOpts { lit_style: 2, anchors_az: az, ..Default::default() }), |i| if i % 3 == 0 { "(?#q)" } else { "" }),
         _ => {
@@ -72,6 +72,7 @@ pub fn respell(n: &Node, variant: usize) -> String {
                 rel_backrefs: h >> 5 & 1 == 1,
                 flags_inline: h >> 6 & 1 == 1,
                 spaced_braces: h >> 7 & 1 == 1,
+                short_escapes: h >> 8 & 1 == 1,
                 ..Default::default()
             };
             let toks = n.tokens(&o);
@@ -266,9 +267,16 @@ pub fn run(ctx: &RunCtx) -> Outcome {
     bases.extend(space(&gen::uni_cfg(), n, false));
     let bases = gen::dedup_by_print(bases);
     let prods = product_space(true, 1);
-    let fb = flag_bases();
+    let mut fb = flag_bases();
+    {
+        // bases for the \h \H \e spellings
+        let mut cfg = gen::common_cfg();
+        cfg.leaves = vec![Lit('a'), Lit('\u{1b}'), Class(false, vec![('0', '9'), ('A', 'F'), ('a', 'f')]), Class(true, vec![('0', '9'), ('A', 'F'), ('a', 'f')]), Any];
+        fb.extend(space(&cfg, 3, false));
+    }
     let texts = gen::text_set(&gen::SIGMA5, 2, 4);
-    let ftexts = gen::texts(&['a', 'A', 'B', 'é', 'É', '\n'], 3);
+    let mut ftexts = gen::texts(&['a', 'A', 'B', 'é', 'É', '\n'], 3);
+    ftexts.extend(gen::texts(&['a', 'F', 'g', '7', '\u{1b}'], 2));
     // round trip first
     {
         let rt = RoundTrip;
